@@ -127,12 +127,14 @@ def model_check(chk, which):
 
 # ----------------------------------------------------------------------------------------
 # script generation
-HOSTILE_NAMES = [b"../../../../escape.txt", b"../x", b"..", b".", b"/abs/olute", b"a/b/c", b"..\\..\\w", b"C:\\dir\\f", b"a:b", b"con<>|?*\"", b".\x01.",
+HOSTILE_NAMES = [b"../../../../escape.txt", b"../x", b"..", b".", b"@WORK@/abs-escape/f", b"a/b/c", b"..\\..\\w", b"C:\\dir\\f", b"a:b", b"con<>|?*\"", b".\x01.",
                  b"\x7f..", b" ", b"...", b"a\nb", b"\xc3\x28", b"\xff\xfe", b"name\x00tail", b"./..", b"x/", b"/", b"", b"-rf", b"~", b"a" * 300,
                  b"..\x1f", b"\x1f\x1f", b"dir/..", b"....//....//x", b"\\", b"\\..\\", b"%2e%2e%2f", b"payload.bin"]
 
 
 def case_line(cid, chain, name=None, mode="dir", size=40, var=0, flags="-", usename=1):
+    if name is not None and bytes(name).startswith(b"/") and len(name) > 1:
+        name = b"@WORK@/abs" + bytes(name)      # an absolute name stays inside the scratch tree the harness scans (it matters for mutated sanitisers only)
     return "case id=%d chain=%s name=%s mode=%s size=%d var=%d flags=%s usename=%d" % (
         cid, ",".join(":".join(h) for h in chain), "-" if name is None else "x" + bytes(name).hex(), mode, size, var, flags, usename)
 
